@@ -82,6 +82,11 @@ class ModelLRU:
             return ("ok", self._find(op[1]) >= 0)
         if kind == "len":
             return ("ok", len(self.items))
+        if kind == "walk":
+            # an open listing consumed item by item and possibly abandoned: what was seen is a
+            # prefix (op[2] items, or all) of one atomic snapshot
+            full = self.apply([op[1]])[1]
+            return ("ok", full if op[2] is None else full[:op[2]])
         if kind in ("iter", "keys"):
             return ("ok", [k for k, _ in self.items])
         if kind == "values":
@@ -204,7 +209,8 @@ class C24:
         "a listing may linearise anywhere between its invocation and its last next()",
     ]
     REQUIRED_REACH = ["reach.seq.evict", "reach.conc.switch_inside_op", "reach.conc.lock_contended",
-                      "reach.conc.listing_overlaps_writer", "reach.lin.checked"]
+                      "reach.conc.listing_overlaps_writer", "reach.lin.checked",
+                      "reach.conc.walk_with_inner_ops", "reach.conc.listing_abandoned"]
 
     def extra_coverage(self, out):
         # finite space of the sequential part: (class, capacity 1..4, MRU->LRU arrangement of <=capacity
@@ -231,7 +237,7 @@ class C24:
         cap = rng.randint(1, 4)
         nthreads = rng.weighted([(2, 6), (3, 6), (4, 4), (6, 2), (8, 2), (12, 1), (16, 1)])
         maxops = 8 if nthreads <= 3 else (5 if nthreads <= 6 else 2)
-        profile = rng.choice(["mixed", "mixed", "listing-heavy", "write-heavy"])
+        profile = rng.choice(["conc-mixed", "conc-mixed", "listing-heavy", "write-heavy"])
         threads = []
         for t in range(nthreads):
             n = rng.randint(1, maxops)
@@ -244,7 +250,7 @@ class C24:
 
     def _gen_op(self, rng, nkeys, tag, profile="mixed"):
         k = rng.randrange(nkeys)
-        val = "v%s.%s" % tag
+        val = "v" + ".".join(str(x) for x in tag)
         if rng.chance(0.08):
             # falsy values are values like any other ("returns the most recently stored value for a
             # present key"): None, 0, "", False and 0.0 must come back, not the default
@@ -255,14 +261,22 @@ class C24:
             "mixed": [("set", 8), ("getitem", 3), ("get", 3), ("getd", 1), ("del", 2), ("contains", 2),
                       ("len", 1), ("iter", 1), ("keys", 2), ("values", 1), ("items", 2)],
             "listing-heavy": [("set", 6), ("get", 2), ("del", 1), ("iter", 2), ("keys", 3),
-                              ("values", 2), ("items", 3)],
+                              ("values", 2), ("items", 3), ("walk", 4)],
+            "conc-mixed": [("set", 8), ("getitem", 3), ("get", 3), ("getd", 1), ("del", 2), ("contains", 2),
+                           ("len", 1), ("iter", 1), ("keys", 2), ("values", 1), ("items", 2), ("walk", 2)],
             "write-heavy": [("set", 10), ("del", 3), ("getitem", 2), ("get", 2), ("keys", 1), ("len", 1)],
         }[profile]
         kind = rng.weighted(table)
+        if kind == "walk":
+            # use the cache while one of its listings is still open in the same thread
+            # (`for k in cache: cache[k]`), and/or abandon the listing half way
+            inner = [self._gen_op(rng, nkeys, tag + ("w%d" % j,), "mixed") for j in range(rng.randint(0, 3))]
+            inner = [o for o in inner if o[0] != "walk"]
+            return ["walk", rng.choice(list(LISTINGS)), rng.choice([None, None, 1, 2]), inner]
         if kind == "set":
             return ["set", k, val]
         if kind == "getd":
-            return ["getd", k, "d%s.%s" % tag]
+            return ["getd", k, "d" + ".".join(str(x) for x in tag)]
         if kind in ("getitem", "get", "del", "contains"):
             return [kind, k]
         return [kind]
@@ -376,10 +390,50 @@ class C24:
             active_listings = [0]
             switch_inside = [0]
 
+            keep = []   # abandoned listings stay referenced until the run is over
+
+            def walk(tid, op):
+                _, kind, stop, inner = op
+                inv = sim.next_seq()
+                active_listings[0] += 1
+                seen, out = [], None
+                try:
+                    try:
+                        it = iter(cache) if kind == "iter" else getattr(cache, kind)()
+                        keep.append(it)
+                        todo = list(inner)
+                        while stop is None or len(seen) < stop:
+                            sim.point("next")
+                            try:
+                                x = next(it)
+                            except StopIteration:
+                                break
+                            seen.append(list(x) if kind == "items" else x)
+                            if todo:
+                                iop = todo.pop(0)
+                                i0 = sim.next_seq()
+                                iout = apply_real(cache, iop)
+                                hist.append({"t": tid, "inv": i0, "ret": sim.next_seq(), "op": iop, "out": iout})
+                        out = ("ok", seen)
+                    except driver_abort():
+                        raise
+                    except Exception as e:  # noqa: BLE001 - an outcome to be judged
+                        out = ("err", type(e).__name__)
+                finally:
+                    active_listings[0] -= 1
+                n_seen = None if (stop is None or len(seen) < stop) else stop
+                hist.append({"t": tid, "inv": inv, "ret": sim.next_seq(), "op": ["walk", kind, n_seen], "out": out})
+                bump(st, "reach.conc.walk_with_inner_ops" if inner else "conc.walk_plain")
+                if n_seen is not None:
+                    bump(st, "reach.conc.listing_abandoned")
+
             def client(tid, ops):
                 def body():
                     for op in ops:
                         sim.point("op")
+                        if op[0] == "walk":
+                            walk(tid, op)
+                            continue
                         inv = sim.next_seq()
                         sw0 = sim.switches
                         if op[0] in LISTINGS:
@@ -407,6 +461,7 @@ class C24:
             sim.run()
             SimLock.sim = None
             state["cache"] = None
+            del keep[:]
         finally:
             lru_mod.Lock = saved
             SimLock.sim = None
